@@ -465,6 +465,8 @@ enum G {
     Ungetc,
     Gets,
     Write(usize),
+    /// gzwrite with a length that does not fit in an int: refused with an error message (which is allocated)
+    WriteHuge,
     Putc,
     Puts,
     Flush,
@@ -532,6 +534,7 @@ fn run_gz(write_mode: bool, by_path: bool, ops: &[G], fail_at: Option<u64>, fail
                     }
                 }
                 G::Write(n) => Rs::gzwrite(f, payload.as_ptr() as *const _, n as u32) as i64,
+                G::WriteHuge => Rs::gzwrite(f, payload.as_ptr() as *const _, 0x8000_0000u32) as i64,
                 G::Putc => Rs::gzputc(f, b'q' as i32) as i64,
                 G::Puts => Rs::gzputs(f, b"hello gz\n\0".as_ptr() as *const _) as i64,
                 G::Flush => Rs::gzflush(f, Z_SYNC_FLUSH) as i64,
@@ -546,7 +549,7 @@ fn run_gz(write_mode: bool, by_path: bool, ops: &[G], fail_at: Option<u64>, fail
                 // the operation that hit the failure must report an error
                 let ok = match *op {
                     G::Read(_) | G::Getc | G::Ungetc | G::Gets | G::Putc | G::Puts | G::Seek(_) | G::Buffer(_) | G::Flush | G::Rewind | G::SetParams => r < 0,
-                    G::Write(_) => r <= 0,
+                    G::Write(_) | G::WriteHuge => r <= 0,
                     G::Direct => true,
                 };
                 // ... through its return value or, when it still delivered data (e.g. the bytes decoded before a
@@ -864,13 +867,15 @@ pub fn run(ctx: &mut Ctx) {
     // every history of up to 2 (thorough: 3) operations over the read / write alphabets
     let depth = if ctx.quick() { 2 } else { 4 };
     let ralpha = [G::Buffer(8), G::Read(1), G::Read(300), G::Read(5000), G::Getc, G::Ungetc, G::Gets, G::Seek(500), G::Rewind, G::Direct];
-    let walpha = [G::Buffer(8), G::Write(1), G::Write(5000), G::Putc, G::Puts, G::Flush, G::Seek(100), G::SetParams, G::Direct];
+    let walpha = [G::Buffer(8), G::Write(1), G::Write(5000), G::WriteHuge, G::Putc, G::Puts, G::Flush, G::Seek(100), G::SetParams, G::Direct];
     let mut read_hist: Vec<(String, Vec<G>)> = vec![("r".into(), vec![])];
     sequences(&ralpha, depth, |q| read_hist.push((format!("r{}", read_hist.len()), q.to_vec())));
     read_hist.push(("seek-read".into(), vec![G::Read(10), G::Seek(500), G::Read(10), G::Rewind, G::Read(10)]));
     let mut write_hist: Vec<(String, Vec<G>)> = vec![("w".into(), vec![])];
     sequences(&walpha, depth, |q| write_hist.push((format!("w{}", write_hist.len()), q.to_vec())));
     write_hist.push(("setparams".into(), vec![G::Write(10), G::SetParams, G::Write(10), G::Flush, G::Write(300)]));
+    write_hist.push(("refused write, nothing else".into(), vec![G::WriteHuge]));
+    write_hist.push(("refused write between writes".into(), vec![G::Write(10), G::WriteHuge, G::Write(10), G::Flush]));
     let dir = std::env::temp_dir();
     // what the file holds when reading (the inflate state is set up before the format is known, and is used or
     // not depending on the content), and how the file is opened when writing
